@@ -18,7 +18,7 @@ func init() {
 			"(7) policy writes/deletes invalidate the policy cache entry before reporting success, and every keyed operation on the policy cache (add, remove, get) uses the result of Store.cacheKey — the key readers use — or a key enumerated from the cache itself; (8) building a request's ACL never mutates or aliases the cached policy objects shared by all tokens (shared rule with C03.6); " +
 			"(2b) a server-side-consistent token's inner id leaves checkSSCTokenInternal only across hmac.Equal on the recomputed HMAC, the unverified decode is reachable only for unauth requests as told by isLoginRequest, and PopulateTokenEntry looks the token up only across the success edge of that check; " +
 			"(6b) inside a child namespace the root-only sys APIs (restrictedSysAPIs) and an own or inherited API lock are refused before request handling; " +
-			"(7b) Store.ACL fetches each named policy in the namespace its map key resolves to; (7c) switchedGetPolicy returns a cached or stored policy object only across the no-expiration / not-yet-expired edge; " +
+			"(7b) Store.ACL fetches each named policy in the namespace its map key resolves to; (7c) switchedGetPolicy returns a cached or stored policy object only across the no-expiration / not-yet-expired edge; (7d) Store.cacheKey appends the policy name verbatim to the namespace UUID and never passes it through a cleaning join (path.Join/Clean), so a name cannot address another namespace's cache entry; " +
 			"(1g) in hierarchy mode a foreign-namespace group policy applies only across policyNS.HasParent(tokenNS); (3b) LoginPath / RootPath answer true only on the exact-match, prefix-entry or wildcard arm; " +
 			"(9) sys/seal and sys/step-down act only after a populated and fetched token, live entity, successful audit and an allowing policy check built with RootPrivsRequired = true.",
 		NotDecided: "that the ACL's decision is the right one (C03's clauses); absence of storage effects of a refused request as an observed effect; interleavings of policy/token mutation with requests; what each HTTP route outside Core.HandleRequest does.",
